@@ -30,7 +30,7 @@ func (p *verifCongProxy) OnPacketSent(t monotime.Time, bif protocol.ByteCount, p
 	if ae {
 		a = 1
 	}
-	p.rec(fmt.Sprintf("S:%d:%d:%d:%d", int64(t), pn, bytes, a))
+	p.rec(fmt.Sprintf("S:%d:%d:%d:%d:%d", int64(t), pn, bytes, a, int64(bif)))
 	p.inner.OnPacketSent(t, bif, pn, bytes, ae)
 }
 
@@ -59,9 +59,13 @@ func (p *verifCongProxy) SetMaxDatagramSize(s protocol.ByteCount) {
 	p.inner.SetMaxDatagramSize(s)
 }
 
-// VerifWrapCongestion installs the recording proxy on a handler made by NewSentPacketHandler.
+// VerifWrapCongestion installs the recording proxy on a handler made by NewSentPacketHandler. It is
+// called again after MigratedPath, which gives the handler a fresh controller.
 func VerifWrapCongestion(h SentPacketHandler, rec func(string)) {
 	sh := h.(*sentPacketHandler)
+	if _, ok := sh.congestion.(*verifCongProxy); ok {
+		return
+	}
 	sh.congestion = &verifCongProxy{inner: sh.congestion, rec: rec}
 }
 
@@ -71,13 +75,27 @@ func VerifCongView(h SentPacketHandler) (cwnd, bytesInFlight protocol.ByteCount,
 	return sh.congestion.GetCongestionWindow(), sh.bytesInFlight, sh.congestion.InSlowStart()
 }
 
-// VerifTrackedApp lists the packet numbers still tracked (not acknowledged, not declared lost) in the
-// application-data space.
-func VerifTrackedApp(h SentPacketHandler) []protocol.PacketNumber {
+// VerifTrackedAll lists what the handler still tracks: per packet number space (0 Initial, 1 Handshake,
+// 2 application data) the packet numbers in the history that are real packets, the outstanding path
+// probe packets, and the path probes' placeholders still in the application-data history.
+func VerifTrackedAll(h SentPacketHandler) (trk [3][]protocol.PacketNumber, probes, placeholders []protocol.PacketNumber) {
 	sh := h.(*sentPacketHandler)
-	var out []protocol.PacketNumber
-	for pn := range sh.appDataPackets.history.Packets() {
-		out = append(out, pn)
+	for i, sp := range []*packetNumberSpace{sh.initialPackets, sh.handshakePackets, sh.appDataPackets} {
+		if sp == nil {
+			continue
+		}
+		for pn, p := range sp.history.Packets() {
+			if p.isPathProbePacket {
+				if i == 2 {
+					placeholders = append(placeholders, pn)
+				}
+				continue
+			}
+			trk[i] = append(trk[i], pn)
+		}
 	}
-	return out
+	for pn := range sh.appDataPackets.history.PathProbes() {
+		probes = append(probes, pn)
+	}
+	return
 }
